@@ -45,6 +45,8 @@ structure KW where
   exited : Option Int := none       -- exit code
   execed : Bool := false
   pending : List (String × Val) := []
+  /-- what getppid answers: the launcher (4241, see "syscall.Getpid") unless the child has been orphaned -/
+  ppidNow : Int := 4241
 deriving Inhabited
 
 def errv (e : Int) : Val := .tup [.int (2 ^ 64 - 1), .int 0, .int e]
@@ -94,7 +96,7 @@ def kernelStep (nr : Int) (args : List Val) (w : KW) : Val × KW :=
     | [_, v, n] => (.tup [n, .int 0, .int 0], { w with pipeOut := w.pipeOut ++ [v] })
     | _ => (okv 0, w)
   else if nr == cNat "syscall.SYS_GETPID" then (okv 4242, w)
-  else if nr == cNat "syscall.SYS_GETPPID" then (okv 4241, w)      -- the process that forked us (see "syscall.Getpid")
+  else if nr == cNat "syscall.SYS_GETPPID" then (okv w.ppidNow, w)  -- the process that forked us (see "syscall.Getpid"), or who adopted us
   else if nr == cNat "unix.SYS_EXECVE" || nr == cNat "unix.SYS_EXECVEAT" then (okv 0, { w with execed := true })
   else if nr == cNat "syscall.SYS_EXIT" then
     (okv 0, { w with exited := some (match args with | .int c :: _ => c | _ => 0) })
